@@ -81,11 +81,13 @@ DepthNum(rad, z, dz, tr) == DepthSum(rad, z, dz, tr, Len(z))
 \* the same integral with the layers in S fully opaque and all others fully transparent
 OpaqueNum(rad, z, dz, S) == DepthNum(rad, z, dz, [k \in 1..Len(z) |-> IF k \in S THEN Q(0) ELSE Q(1)])
 
-\* decimal version on logged geometry (Obs values), used by Trace_Clouds
-RECURSIVE DOpaqueSum(_, _, _, _, _)
-DOpaqueSum(rad, z, dz, S, k) ==
-    IF k = 0 THEN DMul(rad, rad)
-    ELSE IF k \in S THEN DAdd(DOpaqueSum(rad, z, dz, S, k - 1),
-                              DMul(DInt(2), DMul(DAdd(rad, DOf(z[k])), DOf(dz[k]))))
-         ELSE DOpaqueSum(rad, z, dz, S, k - 1)
+\* decimal version on logged geometry (Obs values), used by Trace_Clouds; the sum over layers is
+\* split in halves so that the recursion depth is log2(n) (TLC evaluates recursion on the Java stack)
+RECURSIVE DOpaqueRange(_, _, _, _, _, _)
+DOpaqueRange(rad, z, dz, S, lo, hi) ==
+    IF lo > hi THEN DInt(0)
+    ELSE IF lo = hi THEN (IF lo \in S THEN DMul(DInt(2), DMul(DAdd(rad, DOf(z[lo])), DOf(dz[lo]))) ELSE DInt(0))
+    ELSE LET mid == (lo + hi) \div 2
+         IN  DAdd(DOpaqueRange(rad, z, dz, S, lo, mid), DOpaqueRange(rad, z, dz, S, mid + 1, hi))
+DOpaqueSum(rad, z, dz, S, n) == DAdd(DMul(rad, rad), DOpaqueRange(rad, z, dz, S, 1, n))
 =============================================================================
